@@ -1,0 +1,68 @@
+//go:build verif
+// +build verif
+
+package staking
+
+// Verification hook for property C06 (add-only, compiled only with -tags verif).
+//
+// (1) The evidence pool of the staking module is filled by an asynchronous event loop; the verification
+//     harness needs to place evidences deterministically (exactly what the loop does: append under the
+//     module mutex) and to read the pool back.
+// (2) rewardsToPool and distributeRewards are unexported; the harness calls them in isolation on a
+//     StateDB to compare their results with the Lean model of the same two functions.
+// Nothing here changes behaviour.
+
+import (
+	"github.com/youchainhq/go-youchain/common"
+	"github.com/youchainhq/go-youchain/core/state"
+	"github.com/youchainhq/go-youchain/core/types"
+	"github.com/youchainhq/go-youchain/core/vm"
+	"github.com/youchainhq/go-youchain/local"
+	"github.com/youchainhq/go-youchain/params"
+)
+
+// VerifC06AddEvidence appends an evidence to the pool (as the module's event loop does).
+func (s *Staking) VerifC06AddEvidence(e Evidence) {
+	s.mutex.Lock()
+	s.evidences = append(s.evidences, e)
+	s.mutex.Unlock()
+}
+
+// VerifC06Evidences returns a copy of the pool.
+func (s *Staking) VerifC06Evidences() []Evidence {
+	s.mutex.Lock()
+	defer s.mutex.Unlock()
+	out := make([]Evidence, len(s.evidences))
+	copy(out, s.evidences)
+	return out
+}
+
+// VerifC06SetEvidences replaces the pool.
+func (s *Staking) VerifC06SetEvidences(evs []Evidence) {
+	s.mutex.Lock()
+	s.evidences = append([]Evidence{}, evs...)
+	s.mutex.Unlock()
+}
+
+func verifC06Ctx(chain vm.ChainReader, cfg *params.YouParams, db *state.StateDB, header *types.Header) *context {
+	return &context{chain: chain, config: cfg, db: db, header: header,
+		receipt: types.NewReceipt([]byte{}, false, header.GasUsed), recorder: local.FakeRecorder()}
+}
+
+// VerifC06RewardsToPool runs rewardsToPool alone; returns the module receipt it filled.
+func VerifC06RewardsToPool(chain vm.ChainReader, cfg *params.YouParams, db *state.StateDB, header *types.Header) *types.Receipt {
+	ctx := verifC06Ctx(chain, cfg, db, header)
+	rewardsToPool(ctx)
+	return ctx.receipt
+}
+
+// VerifC06DistributeRewards runs distributeRewards alone; returns the force-settled set (sorted by the caller).
+func (s *Staking) VerifC06DistributeRewards(chain vm.ChainReader, cfg *params.YouParams, db *state.StateDB, header *types.Header) ([]common.Address, error) {
+	ctx := verifC06Ctx(chain, cfg, db, header)
+	settled, err := s.distributeRewards(ctx)
+	var out []common.Address
+	for a := range settled {
+		out = append(out, a)
+	}
+	return out, err
+}
